@@ -337,7 +337,10 @@ func prop(s cs.Spec) common.Result {
 			if vd.accepted {
 				anyAccept = true
 				// soundness
-				axiom := s.Kind == "qc" && s.ClaimBlk == 5 && s.ClaimView == 0 // the genesis certificate is valid by definition
+				// the genesis certificate is valid by definition - the one nobody signed. A "genesis certificate" that carries a
+				// signature object claims signers that are never verified (and that the leader rotation later reads): it is
+				// judged like any other certificate
+				axiom := s.Kind == "qc" && s.ClaimBlk == 5 && s.ClaimView == 0 && b.QC.Signature() == nil
 				if s.Kind == "tc" && s.ClaimView == 0 {
 					axiom = true // the view-0 timeout certificate is valid by definition
 				}
